@@ -4,6 +4,7 @@ element scan.  Statements are fixed by MysyncProofs/C13.lean; proofs below.
 -/
 import MysyncModel.Gtid
 import MysyncModel.Select
+import MysyncProofs.Lemmas.IvLemmas
 
 namespace GtidLemmas
 open Gtid Select
@@ -15,31 +16,346 @@ theorem GSubset.refl (s : GtidSet) : GSubset s s := fun _ _ h => h
 theorem GSubset.trans {a b c : GtidSet} (h1 : GSubset a b) (h2 : GSubset b c) : GSubset a c :=
   fun k x h => h2 k x (h1 k x h)
 
+
+/-! ### helpers: association-list look-up -/
+
+theorem iv_beq_iff (a b : Interval) : (a == b) = true ↔ a = b := by
+  cases a; cases b
+  simp [BEq.beq, instBEqInterval.beq]
+
+theorem ivlist_beq_iff (a b : IvList) : (a == b) = true ↔ a = b := by
+  induction a generalizing b with
+  | nil => cases b <;> simp
+  | cons i r ih =>
+    cases b with
+    | nil => simp
+    | cons j r' => simp only [List.cons_beq_cons, Bool.and_eq_true, iv_beq_iff, ih, List.cons.injEq]
+
+theorem lookup_nil (k : Key) : lookup [] k = none := rfl
+
+theorem lookup_cons (k' k : Key) (l : IvList) (r : GtidSet) :
+    lookup ((k', l) :: r) k = if k' = k then some l else lookup r k := rfl
+
+theorem mem_of_lookup {s : GtidSet} {k : Key} {l : IvList} (h : lookup s k = some l) : (k, l) ∈ s := by
+  induction s with
+  | nil => cases h
+  | cons e r ih =>
+    obtain ⟨k', l'⟩ := e
+    rw [lookup_cons] at h
+    split at h
+    · cases h; subst_vars; exact List.mem_cons_self ..
+    · exact List.mem_cons_of_mem _ (ih h)
+
+theorem lookup_of_mem {s : GtidSet} (hn : (keys s).Nodup) {k : Key} {l : IvList} (h : (k, l) ∈ s) :
+    lookup s k = some l := by
+  induction s with
+  | nil => cases h
+  | cons e r ih =>
+    obtain ⟨k', l'⟩ := e
+    rw [lookup_cons]
+    have hn' : k' ∉ keys r ∧ (keys r).Nodup := by
+      simpa [keys] using hn
+    rcases List.mem_cons.mp h with h | h
+    · cases h; rw [if_pos rfl]
+    · have hne : k' ≠ k := by
+        rintro rfl
+        exact hn'.1 (List.mem_map.mpr ⟨(k', l), h, rfl⟩)
+      rw [if_neg hne]
+      exact ih hn'.2 h
+
+theorem lookup_isSome_of_key {s : GtidSet} {k : Key} (h : k ∈ keys s) : ∃ l, lookup s k = some l := by
+  induction s with
+  | nil => cases h
+  | cons e r ih =>
+    obtain ⟨k', l'⟩ := e
+    rw [lookup_cons]
+    by_cases hk : k' = k
+    · exact ⟨l', by rw [if_pos hk]⟩
+    · rw [if_neg hk]
+      apply ih
+      have : k = k' ∨ k ∈ keys r := by simpa [keys] using h
+      rcases this with rfl | h
+      · exact absurd rfl hk
+      · exact h
+
+theorem key_of_lookup {s : GtidSet} {k : Key} {l : IvList} (h : lookup s k = some l) : k ∈ keys s :=
+  List.mem_map.mpr ⟨(k, l), mem_of_lookup h, rfl⟩
+
+/-- an entry of a well-formed set has a member -/
+theorem wf_entry_mem {s : GtidSet} (hs : WF s) {k : Key} {l : IvList} (h : (k, l) ∈ s) :
+    ∃ x, s.Mem k x := by
+  obtain ⟨hN, hne⟩ := hs.2 k l h
+  obtain ⟨x, hx⟩ := hN.exists_mem hne
+  exact ⟨x, l, lookup_of_mem hs.1 h, hx⟩
+
+theorem wf_normal_of_lookup {s : GtidSet} (hs : WF s) {k : Key} {l : IvList} (h : lookup s k = some l) :
+    Normal l := (hs.2 k l (mem_of_lookup h)).1
+
+/-- a well-formed set without members has no entries -/
+theorem wf_eq_nil_of_no_mem {s : GtidSet} (hs : WF s) (h : ∀ k x, ¬ s.Mem k x) : s = [] := by
+  cases s with
+  | nil => rfl
+  | cons e r =>
+    obtain ⟨k, l⟩ := e
+    obtain ⟨x, hx⟩ := wf_entry_mem hs (List.mem_cons_self ..)
+    exact absurd hx (h k x)
+
+theorem not_mem_nil (k : Key) (x : Int) : ¬ GtidSet.Mem [] k x := by
+  rintro ⟨l, hl, _⟩; cases hl
+
+/-! ### helpers: counting on duplicate-free lists -/
+
+theorem nodup_subset_length {α : Type} [DecidableEq α] (l1 : List α) :
+    ∀ l2 : List α, l1.Nodup → l1 ⊆ l2 →
+      l1.length ≤ l2.length ∧ (l2.length ≤ l1.length → l2 ⊆ l1) := by
+  induction l1 with
+  | nil =>
+    intro l2 _ _
+    refine ⟨Nat.zero_le _, fun h => ?_⟩
+    have : l2 = [] := List.eq_nil_of_length_eq_zero (Nat.le_zero.mp h)
+    subst this; exact List.Subset.refl _
+  | cons a t ih =>
+    intro l2 hn hsub
+    have hn' : a ∉ t ∧ t.Nodup := List.nodup_cons.mp hn
+    have ha : a ∈ l2 := hsub (List.mem_cons_self ..)
+    have hsub' : t ⊆ l2.erase a := by
+      intro x hx
+      have hne : x ≠ a := by rintro rfl; exact hn'.1 hx
+      exact (List.mem_erase_of_ne hne).mpr (hsub (List.mem_cons_of_mem _ hx))
+    have hlen : (l2.erase a).length = l2.length - 1 := List.length_erase_of_mem ha
+    have hpos : 0 < l2.length := List.length_pos_of_mem ha
+    obtain ⟨h1, h2⟩ := ih (l2.erase a) hn'.2 hsub'
+    refine ⟨by simp only [List.length_cons]; omega, fun hle => ?_⟩
+    intro x hx
+    by_cases hxa : x = a
+    · subst hxa; exact List.mem_cons_self ..
+    · have : x ∈ l2.erase a := (List.mem_erase_of_ne hxa).mpr hx
+      exact List.mem_cons_of_mem _ (h2 (by simp only [List.length_cons] at hle; omega) this)
+
 theorem ivContain_iff (s sub : IvList) (hs : Normal s) (hsub : Normal sub) :
-    ivContain s sub = true ↔ ∀ x, IvList.Mem x sub → IvList.Mem x s := by
-  sorry
+    ivContain s sub = true ↔ ∀ x, IvList.Mem x sub → IvList.Mem x s :=
+  ivContain_iff' s sub hs hsub
 
 theorem contain_iff (m s : GtidSet) (hm : WF m) (hs : WF s) :
     contain m s = true ↔ GSubset s m := by
-  sorry
+  unfold contain
+  rw [List.all_eq_true]
+  constructor
+  · intro h k x ⟨l, hl, hx⟩
+    have := h (k, l) (mem_of_lookup hl)
+    simp only at this
+    split at this
+    · cases this
+    · rename_i sl hsl
+      exact ⟨sl, hsl, (ivContain_iff sl l (wf_normal_of_lookup hm hsl) (wf_normal_of_lookup hs hl)).mp this x hx⟩
+  · intro h e he
+    obtain ⟨k, ol⟩ := e
+    simp only
+    have hl := lookup_of_mem hs.1 he
+    obtain ⟨x, hx⟩ := wf_entry_mem hs he
+    obtain ⟨sl, hsl, _⟩ := h k x hx
+    rw [hsl]
+    simp only
+    apply (ivContain_iff sl ol (wf_normal_of_lookup hm hsl) (wf_normal_of_lookup hs hl)).mpr
+    intro y hy
+    obtain ⟨sl', hsl', hy'⟩ := h k y ⟨ol, hl, hy⟩
+    rw [hsl] at hsl'; cases hsl'
+    exact hy'
+
+/-- what structural `Equal` says: same number of entries, and every entry of `m` is an entry of `s` -/
+theorem equal_unfold (m s : GtidSet) :
+    equal m s = true ↔ (m.length = s.length ∧ ∀ k l, (k, l) ∈ m → lookup s k = some l) := by
+  unfold equal
+  rw [Bool.and_eq_true, List.all_eq_true, beq_iff_eq]
+  constructor
+  · rintro ⟨h1, h2⟩
+    refine ⟨h1, fun k l hkl => ?_⟩
+    have := h2 (k, l) hkl
+    simp only at this
+    split at this
+    · cases this
+    · rename_i ol hol
+      rw [hol, (ivlist_beq_iff l ol).mp this]
+  · rintro ⟨h1, h2⟩
+    refine ⟨h1, fun e he => ?_⟩
+    obtain ⟨k, l⟩ := e
+    simp only
+    rw [h2 k l he]
+    exact (ivlist_beq_iff l l).mpr rfl
+
+/-- `Equal` on well-formed sets: the entries coincide in both directions -/
+theorem equal_entries (m s : GtidSet) (hm : WF m) (h : equal m s = true) :
+    ∀ k l, lookup m k = some l ↔ lookup s k = some l := by
+  obtain ⟨hlen, hent⟩ := (equal_unfold m s).mp h
+  have hsub : keys m ⊆ keys s := by
+    intro k hk
+    obtain ⟨l, hl⟩ := lookup_isSome_of_key hk
+    exact key_of_lookup (hent k l (mem_of_lookup hl))
+  have hback : keys s ⊆ keys m :=
+    (nodup_subset_length (keys m) (keys s) hm.1 hsub).2 (by simp [keys, hlen])
+  intro k l
+  constructor
+  · intro hl; exact hent k l (mem_of_lookup hl)
+  · intro hl
+    obtain ⟨l', hl'⟩ := lookup_isSome_of_key (hback (key_of_lookup hl))
+    have := hent k l' (mem_of_lookup hl')
+    rw [hl] at this; cases this
+    exact hl'
 
 theorem equal_imp (m s : GtidSet) (hm : WF m) (hs : WF s) (h : equal m s = true) :
     GSubset s m ∧ GSubset m s := by
-  sorry
+  have _ := hs  -- only `m`'s key uniqueness is needed
+  have he := equal_entries m s hm h
+  constructor
+  · intro k x ⟨l, hl, hx⟩; exact ⟨l, (he k l).mpr hl, hx⟩
+  · intro k x ⟨l, hl, hx⟩; exact ⟨l, (he k l).mp hl, hx⟩
+
+theorem keys_subset_of_gsubset {s m : GtidSet} (hs : WF s) (h : GSubset s m) : keys s ⊆ keys m := by
+  intro k hk
+  obtain ⟨l, hl⟩ := lookup_isSome_of_key hk
+  obtain ⟨x, hx⟩ := wf_entry_mem hs (mem_of_lookup hl)
+  obtain ⟨l', hl', _⟩ := h k x hx
+  exact key_of_lookup hl'
 
 /-- for well-formed sets structural `Equal` is the same as denoting the same set of transactions
 (uniqueness of the normal form of an interval list) -/
 theorem equal_iff (m s : GtidSet) (hm : WF m) (hs : WF s) :
     equal m s = true ↔ (GSubset s m ∧ GSubset m s) := by
-  sorry
+  constructor
+  · exact equal_imp m s hm hs
+  · rintro ⟨hsm, hms⟩
+    apply (equal_unfold m s).mpr
+    have k1 := keys_subset_of_gsubset hs hsm
+    have k2 := keys_subset_of_gsubset hm hms
+    have l1 := (nodup_subset_length (keys s) (keys m) hs.1 k1).1
+    have l2 := (nodup_subset_length (keys m) (keys s) hm.1 k2).1
+    refine ⟨by simp only [keys, List.length_map] at l1 l2; omega, fun k l hkl => ?_⟩
+    have hl := lookup_of_mem hm.1 hkl
+    obtain ⟨ol, hol⟩ := lookup_isSome_of_key (k2 (key_of_lookup hl))
+    rw [hol]
+    congr 1
+    apply normal_unique ol l (wf_normal_of_lookup hs hol) (wf_normal_of_lookup hm hl)
+    intro x
+    constructor
+    · intro hx
+      obtain ⟨l', hl', hx'⟩ := hsm k x ⟨ol, hol, hx⟩
+      rw [hl] at hl'; cases hl'; exact hx'
+    · intro hx
+      obtain ⟨l', hl', hx'⟩ := hms k x ⟨l, hl, hx⟩
+      rw [hol] at hl'; cases hl'; exact hx'
 
 theorem ivMinus_spec (a b : IvList) (ha : Normal a) (hb : Normal b) :
-    Normal (ivMinus a b) ∧ ∀ x, IvList.Mem x (ivMinus a b) ↔ (IvList.Mem x a ∧ ¬ IvList.Mem x b) := by
-  sorry
+    Normal (ivMinus a b) ∧ ∀ x, IvList.Mem x (ivMinus a b) ↔ (IvList.Mem x a ∧ ¬ IvList.Mem x b) :=
+  ivMinus_spec' a b ha hb
+
+/-- the per-key difference computed by `mysqlGTIDSetMinus` -/
+def diffAt (b : GtidSet) (k : Key) (al : IvList) : IvList :=
+  match lookup b k with
+  | none => al
+  | some bl => ivMinus al bl
+
+theorem gtidMinus_eq (a b : GtidSet) :
+    gtidMinus a b = a.filterMap fun e =>
+      if (diffAt b e.1 e.2).isEmpty then none else some (e.1, diffAt b e.1 e.2) := rfl
+
+theorem diffAt_spec (a b : GtidSet) (ha : WF a) (hb : WF b) {k : Key} {al : IvList}
+    (hal : lookup a k = some al) :
+    Normal (diffAt b k al) ∧ ∀ x, IvList.Mem x (diffAt b k al) ↔ (a.Mem k x ∧ ¬ b.Mem k x) := by
+  have hN := wf_normal_of_lookup ha hal
+  have hamem : ∀ x, a.Mem k x ↔ IvList.Mem x al := by
+    intro x
+    constructor
+    · rintro ⟨l, hl, hx⟩; rw [hal] at hl; cases hl; exact hx
+    · intro hx; exact ⟨al, hal, hx⟩
+  unfold diffAt
+  split
+  · rename_i hnone
+    refine ⟨hN, fun x => ?_⟩
+    rw [hamem]
+    constructor
+    · intro hx
+      refine ⟨hx, ?_⟩
+      rintro ⟨l, hl, _⟩; rw [hnone] at hl; cases hl
+    · exact fun h => h.1
+  · rename_i bl hbl
+    obtain ⟨h1, h2⟩ := ivMinus_spec al bl hN (wf_normal_of_lookup hb hbl)
+    refine ⟨h1, fun x => ?_⟩
+    rw [h2, hamem]
+    have hbmem : b.Mem k x ↔ IvList.Mem x bl := by
+      constructor
+      · rintro ⟨l, hl, hx⟩; rw [hbl] at hl; cases hl; exact hx
+      · intro hx; exact ⟨bl, hbl, hx⟩
+    rw [hbmem]
+
+theorem gtidMinus_keys_sublist (a b : GtidSet) : (keys (gtidMinus a b)).Sublist (keys a) := by
+  rw [gtidMinus_eq]
+  induction a with
+  | nil => exact List.Sublist.refl _
+  | cons e r ih =>
+    rw [List.filterMap_cons]
+    split
+    · exact List.Sublist.cons _ ih
+    · rename_i e' he'
+      split at he'
+      · cases he'
+      · cases he'
+        exact List.Sublist.cons_cons _ ih
+
+theorem mem_gtidMinus (a b : GtidSet) (k : Key) (l : IvList) :
+    (k, l) ∈ gtidMinus a b ↔ ∃ al, (k, al) ∈ a ∧ l = diffAt b k al ∧ l ≠ [] := by
+  rw [gtidMinus_eq, List.mem_filterMap]
+  constructor
+  · rintro ⟨⟨k', al⟩, he, hf⟩
+    simp only at hf
+    split at hf
+    · cases hf
+    · rename_i hne
+      cases hf
+      refine ⟨al, he, rfl, ?_⟩
+      intro h; rw [h] at hne; exact hne rfl
+  · rintro ⟨al, he, rfl, hne⟩
+    refine ⟨(k, al), he, ?_⟩
+    simp only
+    rw [if_neg]
+    intro h
+    exact hne (List.isEmpty_iff.mp h)
 
 theorem gtidMinus_spec (a b : GtidSet) (ha : WF a) (hb : WF b) :
     WF (gtidMinus a b) ∧ ∀ k x, (gtidMinus a b).Mem k x ↔ (a.Mem k x ∧ ¬ b.Mem k x) := by
-  sorry
+  have hnd : (keys (gtidMinus a b)).Nodup := (gtidMinus_keys_sublist a b).nodup ha.1
+  refine ⟨⟨hnd, ?_⟩, ?_⟩
+  · intro k l hkl
+    obtain ⟨al, he, rfl, hne⟩ := (mem_gtidMinus a b k l).mp hkl
+    exact ⟨(diffAt_spec a b ha hb (lookup_of_mem ha.1 he)).1, hne⟩
+  · intro k x
+    constructor
+    · rintro ⟨l, hl, hx⟩
+      obtain ⟨al, he, rfl, _⟩ := (mem_gtidMinus a b k l).mp (mem_of_lookup hl)
+      exact ((diffAt_spec a b ha hb (lookup_of_mem ha.1 he)).2 x).mp hx
+    · rintro ⟨⟨al, hal, hxa⟩, hnb⟩
+      have hx := ((diffAt_spec a b ha hb hal).2 x).mpr ⟨⟨al, hal, hxa⟩, hnb⟩
+      refine ⟨diffAt b k al, lookup_of_mem hnd ?_, hx⟩
+      apply (mem_gtidMinus a b k _).mpr
+      refine ⟨al, mem_of_lookup hal, rfl, ?_⟩
+      intro h; rw [h] at hx; exact (mem_nil x).mp hx
+
+/-- the difference has no entry exactly when the minuend is a subset of the subtrahend -/
+theorem gtidMinus_isEmpty_iff (a b : GtidSet) (ha : WF a) (hb : WF b) :
+    (gtidMinus a b).isEmpty = true ↔ GSubset a b := by
+  obtain ⟨hwf, hmem⟩ := gtidMinus_spec a b ha hb
+  rw [List.isEmpty_iff]
+  constructor
+  · intro h k x hx
+    apply Classical.byContradiction
+    intro hnb
+    have := (hmem k x).mpr ⟨hx, hnb⟩
+    rw [h] at this
+    exact not_mem_nil k x this
+  · intro h
+    apply wf_eq_nil_of_no_mem hwf
+    intro k x hx
+    have := (hmem k x).mp hx
+    exact this.2 (h k x this.1)
 
 theorem gtidDiff_classifies (replica source : GtidSet) (hr : WF replica) (hs : WF source) :
     let (c, dSrc, dRep) := gtidDiff replica source
@@ -49,21 +365,166 @@ theorem gtidDiff_classifies (replica source : GtidSet) (hr : WF replica) (hs : W
     (c = .sourceAhead ↔ (¬ GSubset source replica ∧ GSubset replica source)) ∧
     (c = .replicaAhead ↔ (GSubset source replica ∧ ¬ GSubset replica source)) ∧
     (c = .splitBrain ↔ (¬ GSubset source replica ∧ ¬ GSubset replica source)) := by
-  sorry
+  have e1 := gtidMinus_isEmpty_iff source replica hs hr
+  have e2 := gtidMinus_isEmpty_iff replica source hr hs
+  show (∀ k x, (gtidMinus source replica).Mem k x ↔ _) ∧ (∀ k x, (gtidMinus replica source).Mem k x ↔ _) ∧ _
+  refine ⟨(gtidMinus_spec source replica hs hr).2, (gtidMinus_spec replica source hr hs).2, ?_⟩
+  rw [← e1, ← e2]
+  cases (gtidMinus source replica).isEmpty <;> cases (gtidMinus replica source).isEmpty <;> simp
 
 theorem splitbrain_sound (slave master : GtidSet) (u : String) (hm : WF master) (hs : WF slave)
     (h : GSubset slave master) : isSplitBrained slave master u = false := by
-  sorry
+  have hc := (contain_iff master slave hm hs).mpr h
+  unfold contain at hc
+  rw [List.all_eq_true] at hc
+  unfold isSplitBrained
+  rw [List.any_eq_false]
+  intro e he
+  have := hc e he
+  obtain ⟨k, sl⟩ := e
+  simp only at this ⊢
+  split at this
+  · cases this
+  · rename_i ml hml
+    simp only [this, if_true]
+    exact Bool.false_ne_true
 
 theorem splitbrain_complete (slave master : GtidSet) (u : String) (hm : WF master) (hs : WF slave)
     (h : ∃ k x, slave.Mem k x ∧ ¬ master.Mem k x ∧ k.sid ≠ u) : isSplitBrained slave master u = true := by
-  sorry
+  obtain ⟨k, x, ⟨sl, hsl, hx⟩, hnm, hku⟩ := h
+  unfold isSplitBrained
+  rw [List.any_eq_true]
+  refine ⟨(k, sl), mem_of_lookup hsl, ?_⟩
+  simp only
+  split
+  · rfl
+  · rename_i ml hml
+    have hnc : ivContain ml sl ≠ true := by
+      intro hc
+      exact hnm ⟨ml, hml, (ivContain_iff ml sl (wf_normal_of_lookup hm hml) (wf_normal_of_lookup hs hsl)).mp hc x hx⟩
+    rw [if_neg hnc, if_neg hku]
+
+/-! ### the scan for the most recent node -/
+
+theorem pickBetter_cases (c q : Pos) : pickBetter c q = c ∨ pickBetter c q = q := by
+  unfold pickBetter
+  split
+  · split
+    · exact Or.inr rfl
+    · exact Or.inl rfl
+  · split
+    · exact Or.inr rfl
+    · exact Or.inl rfl
+
+theorem scan_mem (c : Pos) (rest : List Pos) : scanMostRecent c rest ∈ c :: rest := by
+  unfold scanMostRecent
+  induction rest generalizing c with
+  | nil => exact List.mem_cons_self ..
+  | cons q t ih =>
+    rw [List.foldl_cons]
+    have := ih (pickBetter c q)
+    rcases pickBetter_cases c q with h | h <;> rw [h] at this ⊢
+    · rcases List.mem_cons.mp this with h' | h'
+      · rw [h']; exact List.mem_cons_self ..
+      · exact List.mem_cons_of_mem _ (List.mem_cons_of_mem _ h')
+    · exact List.mem_cons_of_mem _ this
+
+/-- fold invariant: if `M` contains every node still in play and the running maximum already
+contains `M` (or `M` is still to come), then the final maximum contains `M` -/
+theorem scan_max (M : Pos) (c : Pos) (rest : List Pos)
+    (hwf : ∀ p ∈ c :: rest, WF p.gtid) (hsub : ∀ p ∈ c :: rest, GSubset p.gtid M.gtid)
+    (h : GSubset M.gtid c.gtid ∨ M ∈ rest) : GSubset M.gtid (scanMostRecent c rest).gtid := by
+  unfold scanMostRecent
+  induction rest generalizing c with
+  | nil =>
+    rcases h with h | h
+    · exact h
+    · cases h
+  | cons q t ih =>
+    rw [List.foldl_cons]
+    have hc := hwf c (List.mem_cons_self ..)
+    have hq := hwf q (List.mem_cons_of_mem _ (List.mem_cons_self ..))
+    have hcM := hsub c (List.mem_cons_self ..)
+    have hqM := hsub q (List.mem_cons_of_mem _ (List.mem_cons_self ..))
+    apply ih
+    · intro p hp
+      rcases List.mem_cons.mp hp with rfl | hp
+      · rcases pickBetter_cases c q with h' | h' <;> rw [h'] <;> assumption
+      · exact hwf p (List.mem_cons_of_mem _ (List.mem_cons_of_mem _ hp))
+    · intro p hp
+      rcases List.mem_cons.mp hp with rfl | hp
+      · rcases pickBetter_cases c q with h' | h' <;> rw [h'] <;> assumption
+      · exact hsub p (List.mem_cons_of_mem _ (List.mem_cons_of_mem _ hp))
+    · -- the new running maximum still contains `M`, or `M` is further down
+      have key : GSubset M.gtid c.gtid ∨ M = q → GSubset M.gtid (pickBetter c q).gtid := by
+        intro h0
+        unfold pickBetter
+        split
+        · rename_i heq
+          have := equal_imp q.gtid c.gtid hq hc heq
+          split
+          · rcases h0 with h0 | h0
+            · exact GSubset.trans h0 this.1
+            · rw [h0]; exact GSubset.refl _
+          · rcases h0 with h0 | h0
+            · exact h0
+            · rw [h0]; exact this.2
+        · split
+          · rename_i hcont
+            have := (contain_iff q.gtid c.gtid hq hc).mp hcont
+            rcases h0 with h0 | h0
+            · exact GSubset.trans h0 this
+            · rw [h0]; exact GSubset.refl _
+          · rename_i hcont
+            rcases h0 with h0 | h0
+            · exact h0
+            · exfalso
+              apply hcont
+              apply (contain_iff q.gtid c.gtid hq hc).mpr
+              rw [← h0]; exact hcM
+      rcases h with h | h
+      · exact Or.inl (key (Or.inl h))
+      · rcases List.mem_cons.mp h with h | h
+        · exact Or.inl (key (Or.inr h))
+        · exact Or.inr h
 
 theorem mostRecent_spec (ps : List Pos) (hne : ps ≠ []) (hwf : ∀ p ∈ ps, WF p.gtid) :
     match findMostRecent ps with
     | .panic => False
     | .node m => m ∈ ps ∧ ∀ p ∈ ps, GSubset p.gtid m.gtid
     | .splitBrain => ¬ ∃ m ∈ ps, ∀ p ∈ ps, GSubset p.gtid m.gtid := by
-  sorry
+  cases ps with
+  | nil => exact absurd rfl hne
+  | cons p r =>
+    have hmem := scan_mem p r
+    have hmwf := hwf _ hmem
+    unfold findMostRecent
+    simp only
+    by_cases hd : detectSplitbrain (p :: r) (scanMostRecent p r) = true
+    · rw [if_pos hd]
+      simp only
+      rintro ⟨M, hMmem, hMall⟩
+      unfold detectSplitbrain at hd
+      rw [List.any_eq_true] at hd
+      obtain ⟨n, hn, hnc⟩ := hd
+      have hMmax : GSubset M.gtid (scanMostRecent p r).gtid := by
+        apply scan_max M p r hwf hMall
+        rcases List.mem_cons.mp hMmem with h | h
+        · left; rw [h]; exact GSubset.refl _
+        · exact Or.inr h
+      have : contain (scanMostRecent p r).gtid n.gtid = true :=
+        (contain_iff _ _ hmwf (hwf n hn)).mpr (GSubset.trans (hMall n hn) hMmax)
+      rw [this] at hnc
+      cases hnc
+    · rw [if_neg hd]
+      simp only
+      refine ⟨hmem, fun n hn => ?_⟩
+      unfold detectSplitbrain at hd
+      rw [List.any_eq_true] at hd
+      apply (contain_iff _ _ hmwf (hwf n hn)).mp
+      apply Classical.byContradiction
+      intro hc
+      apply hd
+      exact ⟨n, hn, by simp only [Bool.not_eq_true'] ; exact Bool.eq_false_iff.mpr hc⟩
 
 end GtidLemmas
